@@ -189,6 +189,14 @@ def gen(tier, seed):
             if rnd.random() < 0.08:
                 qs.append(('conv', rnd.choice([('P', rnd.choice(PREPS)), ('L', rnd.choice(LREPS)), ('M', rnd.choice(MREPS))])))
         out.append((init, qs))
+    # ---- targeted: an interpolation call, a permanent conversion, the same call again (the answer must follow the data)
+    init0 = (('absolute', 'bar'), ('molar', 'mmol'), ('mass', 'g'), 'K', 77.355, 'full')
+    convs = [('P', ('absolute', 'kPa')), ('P', ('relative', None)), ('L', ('mass', 'mg')), ('L', ('molar', 'mol')), ('M', ('mass', 'kg')), ('M', ('volume', 'cm3')), ('M', ('molar', 'mmol'))]
+    for cv in convs:
+        for kind in ('loading_at', 'pressure_at'):
+            # query in NATIVE units at values that are inside the range before and after (pressure 0.3..0.6 bar etc. would move: use the data themselves)
+            q1 = (kind, (0.3, 0.6) if kind == 'loading_at' else (2.0, 3.5), 'ads', 'linear', (0.0, 20.0)) + (None,) * 6
+            out.append((init0, [q1, ('conv', cv), q1]))
     return out
 
 
